@@ -144,6 +144,49 @@ Theorem seek_refines_regions : forall c ops slot f w off (data : bool) w' x, 0 <
 Proof. exact seek_refines_lemma. Qed.
 Print Assumptions seek_refines_regions.
 
+(* The allocator's 64-bit word arithmetic.  [allocate_w], [free_contig_w],
+   [free_list_w] (ProofsWords.v) transcribe bitmap_sector_allocator.go over a
+   list of uint64 words: the three scan phases of AllocateContiguous,
+   bits.TrailingZeros64, the shift/mask expressions of allocateAt and
+   freeWithMask, the loops over full words.  On a bitmap of the shape
+   NewBitmapSectorAllocator builds ([WFW]: sectorCount/64+1 words < 2^64,
+   bits from sectorCount on permanently 0 -- [allocator_words_init]) they
+   compute exactly what the flat-bitmap allocator of Model.v computes:
+   the same first sector, count, nextSector and new bitmap ([flat] = the
+   first sectorCount bits), and the same panic condition when freeing. *)
+Theorem allocator_words_init : forall nsec,
+  WFW (init_words nsec) nsec /\ flat (init_words nsec) nsec = repeat true nsec.
+Proof. exact init_words_ok. Qed.
+Print Assumptions allocator_words_init.
+
+Theorem allocator_words_refine_flat : forall ws nsec w maxi,
+  WFW ws nsec -> a_free (w_al w) = flat ws nsec -> a_next (w_al w) <= nsec -> 1 <= maxi ->
+  match allocate_w ws (a_next (w_al w)) maxi, snd (allocate w maxi) with
+  | Some (ws', first, n, next'), Some (f1, n1) =>
+    f1 = S first /\ n1 = n /\ WFW ws' nsec /\
+    a_free (w_al (fst (allocate w maxi))) = flat ws' nsec /\ a_next (w_al (fst (allocate w maxi))) = next' /\
+    next' <= nsec
+  | None, None => True
+  | _, _ => False
+  end.
+Proof. exact allocate_words_model. Qed.
+Print Assumptions allocator_words_refine_flat.
+
+Theorem allocator_words_free_contig : forall ws nsec first count ws' pn',
+  WFW ws nsec -> 1 <= first -> 1 <= count -> first - 1 + count <= nsec ->
+  free_contig_w ws first count = (ws', pn') ->
+  WFW ws' nsec /\ flat ws' nsec = set_range (flat ws nsec) (first - 1) count true /\
+  pn' = any_range (flat ws nsec) (first - 1) count.
+Proof. exact free_contig_w_refines. Qed.
+Print Assumptions allocator_words_free_contig.
+
+Theorem allocator_words_free_list : forall nsec l ws pn ws' pn',
+  WFW ws nsec -> (forall s, In s l -> s <= nsec) ->
+  free_list_w ws l pn = (ws', pn') ->
+  WFW ws' nsec /\ free_list_bits (flat ws nsec) l pn = (flat ws' nsec, pn').
+Proof. exact free_list_w_refines. Qed.
+Print Assumptions allocator_words_free_list.
+
 (* Non-vacuity: a history that creates two files, fragments the device,
    fails a write half-way, and ends with everything closed. *)
 Definition ex_cfg := mkCfg 4 6 3 40.
